@@ -9,13 +9,13 @@ BASELINE_OFF = ("export GOFLAGS=-mod=mod GOPROXY=off GOSUMDB=off GOTOOLCHAIN=loc
                 "for m in $(cat /w/out/gomods.txt); do (cd /repo/$m && go test -mod=mod -json -vet=off -count=1 -timeout 25m ./...); done")
 
 P = {
- "C01": dict(level="exploration", tech="runtime monitor: recording exporter + ticket-clock history oracle (exactly-once, batch bound, exclusivity, quiet-after-shutdown, flush visibility, conservation vs SDK drop counter) over seeded concurrent histories under go -race; queue-capacity family with a gate-parked worker; unbuffered queue (blocking mode); exporters re-read their batch before returning (batch stability while exporting); processor list edited while End walks it (shared spanlist scenario)",
+ "C01": dict(level="exploration", tech="runtime monitor: recording exporter + ticket-clock history oracle (exactly-once, batch bound, exclusivity, quiet-after-shutdown, flush visibility, conservation vs SDK drop counter) over seeded concurrent histories under go -race; queue-capacity family with a gate-parked worker; unbuffered queue (blocking mode); exporters re-read their batch before returning (batch stability while exporting); processor list edited while End walks it (shared spanlist scenario); export failures wrapping context errors",
              text="Held on every generated concurrent history of End/ForceFlush/Shutdown against the real BatchSpanProcessor with slow/failing/blocking exporters; evidence reports overlaps actually observed. Exploration is the right level: the property quantifies over schedules, which only executions can sample.",
              note="Trusts the Go race detector, the harness' recording exporter and ticket clock; interleavings not produced are not covered."),
  "C02": dict(level="exploration", tech="runtime monitor: interval (linearizability) oracle + conservation ledger over concurrent Add/Collect histories under go -race (pre-built options and metric.WithAttributes over one shared caller-owned slice); porcupine linearizability check of short histories in the thorough tier; cardinality limit spelled as 'no limit' (negative / unparsable)",
              text="Held on all generated concurrent recording/collection histories over manual and periodic readers; sums are exact (small integers).",
              note="Trusts race detector, harness ledgers, porcupine; schedules not produced are not covered."),
- "C03": dict(level="exploration", tech="runtime monitor: independent W3C ABNF recognisers + move-to-front list model over generated/mutated headers and edit programs; fresh carriers and carriers an earlier hop already wrote to",
+ "C03": dict(level="exploration", tech="runtime monitor: independent W3C ABNF recognisers + move-to-front list model over generated/mutated headers and edit programs; fresh carriers and carriers an earlier hop already wrote to; extraction over a stale extraction of the same span",
              text="Held on every generated span context, header byte string and Insert/Delete program; recognisers are written from the W3C ABNF independently of the code.",
              note="Trusts the hand-transcribed W3C grammar in the harness; inputs outside the generators' reach are not covered."),
  "C04": dict(level="exploration", tech="runtime monitor: ordered-map/bounded-FIFO reference model compared with the ReadOnlySpan delivered to a recording processor, over generated span programs and limits; canaries behind caller-owned option slices",
@@ -27,7 +27,7 @@ P = {
  "C06": dict(level="exploration", tech="runtime monitor: recording log exporter + ticket-clock history oracle (once, per-producer order, batch bound, exclusivity, overwrite-soundness, immutability) over seeded concurrent histories under go -race",
              text="Held on every generated concurrent history of Emit/ForceFlush/Shutdown against the real BatchProcessor with slow/failing/blocking exporters.",
              note="Trusts race detector and harness exporter; schedules not produced are not covered."),
- "C07": dict(level="exploration", tech="runtime monitor: exact (big-float / exponent arithmetic) bucket-index oracle applied incrementally to every intermediate collection of generated measurement sequences; concurrent record/collect family checking every collected point for internal consistency; observable-counter family; shuffled boundary lists through view functions",
+ "C07": dict(level="exploration", tech="runtime monitor: exact (big-float / exponent arithmetic) bucket-index oracle applied incrementally to every intermediate collection of generated measurement sequences; concurrent record/collect family checking every collected point for internal consistency; observable-counter family; shuffled boundary lists through view functions; consumer writes into received points",
              text="Held on every generated measurement sequence, boundary list and (MaxSize, MaxScale) pair, collecting after every few records so every rescale is observed.",
              note="Trusts math/big and the harness' incremental rescale model."),
  "C08": dict(level="exploration", tech="runtime monitor: running delta ledger vs cumulative reader, interval adjacency on reported timestamps, async observation script model, over generated multi-cycle histories; wide (thousands of sets), concurrent (record while collecting, overlapping collections of one reader) and interrupted (collection attempts on done contexts, callbacks failing on demand) families; bucket layouts of different lengths with shifting output slots in reused ResourceMetrics; several goroutines creating one asynchronous instrument at once; same-named observables in meters that differ by version / schema URL / attributes",
@@ -39,13 +39,13 @@ P = {
  "C10": dict(level="exploration", tech="runtime monitor: per-span OnEnd counters, tagged mutation groups (torn-write detection), snapshot re-comparison, ticket-clock child count bounds, with and without runtime/trace, under go -race; processors that read the live span, churned processors probed inside/after their registration window, tiny event/link queues, caller-owned attribute buffers, live ReadOnlySpan reads racing End, stack-trace ownership (goroutine header) for concurrent RecordError(WithStackTrace); record-only spans; errors whose Error() panics; logging code that re-enters the provider (instrumented logger)",
              text="Held on every generated concurrent program on shared spans in traced and untraced mode; evidence reports truly overlapping End calls.",
              note="Trusts race detector; interleavings not produced are not covered."),
- "C11": dict(level="exploration", tech="runtime monitor: member/property map model + independent percent codec and limit arithmetic over generated baggage, mutated/raw header bytes and edit programs; extraction into contexts that already carry baggage",
+ "C11": dict(level="exploration", tech="runtime monitor: member/property map model + independent percent codec and limit arithmetic over generated baggage, mutated/raw header bytes and edit programs; extraction into contexts that already carry baggage; baggage on derived contexts",
              text="Held on every generated member set, header byte string and edit program.",
              note="Trusts the harness model of the W3C baggage grammar and limits."),
  "C12": dict(level="exploration", tech="runtime monitor: reference first-seen limiter + conservation ledgers over generated attribute-set streams, limits, temporalities and view combinations incl. a value-dependent filter (plus a -race concurrent variant); readers whose aggregation selectors disagree about dropping, fed by sync adds, instrument callbacks and RegisterCallback; measurements recorded through long key-value lists with overridden entries; limits spelled as 'no limit'",
              text="Held on every generated stream/limit/view combination; totals are exact.",
              note="Trusts harness ledger; OTEL_GO_X_CARDINALITY_LIMIT is the only way to set the limit at this commit."),
- "C13": dict(level="exploration", tech="runtime monitor: loopback OTLP/Zipkin collectors decode what the real exporters put on the wire; two independent projections (input objects vs decoded protobuf) compared as multisets; schema-URL-only resources",
+ "C13": dict(level="exploration", tech="runtime monitor: loopback OTLP/Zipkin collectors decode what the real exporters put on the wire; two independent projections (input objects vs decoded protobuf) compared as multisets; schema-URL-only resources; schema-URL-only scopes",
              text="Held on every generated batch for the six OTLP exporters and Zipkin; gRPC and HTTP payloads compared after canonical ordering.",
              note="Trusts protobuf/gRPC libraries and the harness projection."),
  "C14": dict(level="fault_enumeration", tech="runtime monitor: scripted loopback collectors inject response sequences; oracle over attempts, payload identity, gaps vs hints, results, error-handler reports; partial success with count only / message only; unbounded budget under a hint longer than the default budget; RetryInfo with zero delay; slow answers counted against the budget",
@@ -54,16 +54,16 @@ P = {
  "C15": dict(level="exploration", tech="runtime monitor: membership model + shutdown counters in recording components, child process per program (panics/process death observed by parent), concurrent variant under go -race; processor list edited while End walks it; exporters that read every span; processors whose Shutdown reports an error; exporters that fail to close; child-process cases classified as hang by two stack samples",
              text="Held on every generated lifecycle program on the three providers incl. nil exporters and cancelled contexts.",
              note="Trusts child-process supervision; schedules not produced are not covered."),
- "C16": dict(level="exploration", tech="runtime monitor: one process per trial; ledger of post-install telemetry vs ManualReader/recording processor, callback counters, watchdog with two-sample deadlock confirmation, go -race; installations interrupted by a fail-fast error handler (panic / Goexit); late registrations mixing SDK-native and placeholder observables",
+ "C16": dict(level="exploration", tech="runtime monitor: one process per trial; ledger of post-install telemetry vs ManualReader/recording processor, callback counters, watchdog with two-sample deadlock confirmation, go -race; installations interrupted by a fail-fast error handler (panic / Goexit); late registrations mixing SDK-native and placeholder observables; tracer scopes (version, schema URL, attributes) compared at the SDK",
              text="Held on every generated trial racing creation, recording, (un)registration and installation.",
              note="Deadlock = two identical stack samples of goroutines parked in otel frames; schedules not produced are not covered."),
- "C17": dict(level="exploration", tech="runtime monitor: ordered-map model with recursive truncation predicate compared against Record contents after generated SetAttributes/AddAttributes programs; clone divergence; concurrent Emit through one shared Logger",
+ "C17": dict(level="exploration", tech="runtime monitor: ordered-map model with recursive truncation predicate compared against Record contents after generated SetAttributes/AddAttributes programs; clone divergence; concurrent Emit through one shared Logger; caller slices reused after the call; overridden limit options",
              text="Held on every generated program under every drawn (count, length) limit pair, on emitted records and clones.",
              note="Trusts the harness model."),
  "C18": dict(level="exploration", tech="runtime monitor: independent name/suffix/label recogniser + twin cumulative ManualReader value comparison on gathered families; child per batch (process death observed); concurrent scrapes under go -race; scopes publishing one instrument name in different units; resources target_info cannot be built from; observable counter values under overlapping scrapes",
              text="Held on every generated instrument name/unit/kind/attribute/option case in both validation schemes.",
              note="Trusts client_golang's registry as the acceptance oracle plus the harness recogniser."),
- "C19": dict(level="exploration", tech="runtime monitor: map model of right-biased union + schema case analysis + independent percent codec over generated resources, environment strings and detector lists (whole, and split over sub-slice options); identity of operands incl. nil vs Empty()",
+ "C19": dict(level="exploration", tech="runtime monitor: map model of right-biased union + schema case analysis + independent percent codec over generated resources, environment strings and detector lists (whole, and split over sub-slice options); identity of operands incl. nil vs Empty(); attribute lists used for construction repeatedly",
              text="Held on every generated pair/triple, environment string and detector list.",
              note="Trusts the harness model."),
  "C20": dict(level="fault_enumeration", tech="runtime monitor: child process per configuration row; behavioural observation at loopback collectors (who received, path, headers, compression, deadline) and at SDK extension points; all-zero raw span limits option; header and timeout rows over a caller-supplied gRPC connection / an HTTP client with a proxy function",
